@@ -201,6 +201,7 @@ func C09(p *load.Prog, r *oblig.Run) {
 	// merging matches children with Equals (C07's pair-search rules) and is built from deep copies
 	c07PairSearch(p, r)
 	c07CopyWalksAll(p, r)
+	c07CopyThroughFilter(p, r)
 	r.Rule("R09.c", "a merge function returns nil or a node computed from both operands (nothing of the right node is dropped by a shortcut)", 1)
 	g := cg.New(p, false)
 	mn := p.MustFunc(load.PkgRoot, "MergeNodes")
@@ -345,6 +346,7 @@ func C07(p *load.Prog, r *oblig.Run) {
 	c07EqualShortcuts(p, r)
 	c07PairSearch(p, r)
 	c07CopyWalksAll(p, r)
+	c07CopyThroughFilter(p, r)
 	g := cg.New(p, false)
 	dc := p.MustFunc(load.PkgRoot, "DeepCopy")
 	fl := p.MustFunc(load.PkgRoot, "Filter")
